@@ -3,7 +3,7 @@
 set -e
 WT=/tmp/wt/mine
 [ -d $WT ] || git -C /repo worktree add -q --detach $WT HEAD
-git -C $WT checkout -q -- . ; git -C $WT apply "$1"
+git -C $WT checkout -q -- . ; git -C $WT checkout -q --detach $(git -C /repo rev-parse HEAD); git -C $WT apply "$1"
 shift
 cd /verif
 PYVC_REPO=$WT ./check "$@" --no-evidence || echo "exit=$?"
